@@ -528,13 +528,13 @@ class DiagProb(Problem):
     solve_system = solve_jacobian
 
 
-def diag_run(M, kind, dt, lam, lamE, u0, float_mode=False, reconf=None):
+def diag_run(M, kind, dt, lam, lamE, u0, float_mode=False, reconf=None, dt_first=None):
     from pySDC.implementations.sweeper_classes.ParaDiagSweepers import QDiagonalization, QDiagonalizationIMEX
 
     cls = QDiagonalizationIMEX if kind == 'imex' else QDiagonalization
     dtype = np.dtype('complex128') if float_mode else sp.ODT
     L = cm.make_level(DiagProb, {'lam': lam, 'lamE': lamE, 'dtype': dtype, 'imex': kind == 'imex'}, cls,
-                      {'num_nodes': M, 'quad_type': 'RADAU-RIGHT', 'ignore_ic': False, 'update_f_evals': True}, dt)
+                      {'num_nodes': M, 'quad_type': 'RADAU-RIGHT', 'ignore_ic': False, 'update_f_evals': True}, dt if dt_first is None else dt_first)
     P = L.prob
     L.u[0] = P.dtype_u(P.init)
     L.u[0][0] = u0
@@ -545,10 +545,17 @@ def diag_run(M, kind, dt, lam, lamE, u0, float_mode=False, reconf=None):
     if reconf is not None:
         L.sweep.set_G_inv(np.array(reconf, dtype=float))  # re-configured after construction through the public setter
     L.sweep.update_nodes()
+    if dt_first is not None:  # the same sweeper applied again after the step size of its level was changed (what step-size control does between blocks)
+        L.params.dt = dt
+        L.f[0] = P.eval_f(L.u[0], 0.0)
+        for m in range(1, M + 1):
+            L.u[m] = P.dtype_u(P.init)
+            L.u[m][0] = 0.0
+        L.sweep.update_nodes()
     return L
 
 
-def diag_case(rep, M, kind, tol=1e-9, configs=None, reconf=False):
+def diag_case(rep, M, kind, tol=1e-9, configs=None, reconf=False, dt_first=None):
     from pySDC.implementations.sweeper_classes.ParaDiagSweepers import QDiagonalization
 
     rep.func(QDiagonalization.update_nodes, QDiagonalization.mat_vec, QDiagonalization.computeDiagonalization)
@@ -556,7 +563,7 @@ def diag_case(rep, M, kind, tol=1e-9, configs=None, reconf=False):
     configs = configs or [(0.1, -1.0, 0.0 if kind != 'imex' else 0.3), (rng.uniform(0.05, 0.5), rng.uniform(-5, 0), 0.0 if kind != 'imex' else rng.uniform(-1, 1))]
     xr, xi = z3.Real('u0_re'), z3.Real('u0_im')
     for (dt, lam, lamE) in configs:
-        name = f'diag/{kind}/M{M}/dt{dt:.3g}/lam{lam:.3g}' + ('/reconfigured' if reconf else '')
+        name = f'diag/{kind}/M{M}/dt{dt:.3g}/lam{lam:.3g}' + ('/reconfigured' if reconf else '') + (f'/after-an-application-with-dt{dt_first:g}' if dt_first else '')
         # G: identity, or (reconf) a well conditioned upper triangular matrix installed with set_G_inv after the sweeper was built:
         # the sweeper then solves (G - dt lam Q) y = u0
         G = np.eye(M) + (np.triu(np.full((M, M), 0.25), 1) if reconf else 0)
@@ -564,7 +571,7 @@ def diag_case(rep, M, kind, tol=1e-9, configs=None, reconf=False):
 
         def fn(c):
             c.add(z3.And(xr >= -1, xr <= 1, xi >= -1, xi <= 1))
-            L = diag_run(M, kind, dt, lam, lamE, SymComplex(xr, xi), reconf=Ginv)
+            L = diag_run(M, kind, dt, lam, lamE, SymComplex(xr, xi), reconf=Ginv, dt_first=dt_first)
             Q = np.array(L.sweep.coll.Qmat)
             return [SymComplex.lift(L.u[m][0]) for m in range(1, M + 1)], Q
 
@@ -586,13 +593,13 @@ def diag_case(rep, M, kind, tol=1e-9, configs=None, reconf=False):
             if res == 'sat':
                 rep.replayed += 1
                 x = complex(float(core.model_value(model, xr)), float(core.model_value(model, xi)))
-                Lf = diag_run(M, kind, dt, lam, lamE, x, float_mode=True, reconf=Ginv)
+                Lf = diag_run(M, kind, dt, lam, lamE, x, float_mode=True, reconf=Ginv, dt_first=dt_first)
                 Uf = np.array([complex(Lf.u[m][0]) for m in range(1, M + 1)])
                 defect = G @ Uf - x - dt * lt * (Q[1:, 1:] @ Uf)
                 if np.max(np.abs(defect)) > 1e-8:
-                    rep.violation(f'{rep.pid}/QDiagonalization/{kind}/collocation-solve',
+                    rep.violation(f'{rep.pid}/QDiagonalization/{kind}/collocation-solve' + ('/step-size-changed' if dt_first else ''),
                                   f'{name}: diagonalisation sweep leaves collocation defect {np.max(np.abs(defect)):.3e}',
-                                  {'task': ['diag', M, kind, reconf], 'dt': dt, 'lam': lam, 'lamE': lamE, 'u0': [x.real, x.imag], 'defect': np.abs(defect).tolist()})
+                                  {'task': ['diag', M, kind, reconf, dt_first], 'dt': dt, 'lam': lam, 'lamE': lamE, 'u0': [x.real, x.imag], 'defect': np.abs(defect).tolist()})
                 else:
                     rep.unreproduced(name, {'u0': [x.real, x.imag], 'defect': np.abs(defect).tolist()})
             # sensitivity: a 1e-6 change of one Q entry in the spec must be noticed
